@@ -28,9 +28,42 @@ def serialise(cs):
     return out
 
 
+def cold_threads(jobs, n):
+    """the FIRST calls of this process come from n threads at once (behind a barrier); one line per thread and job"""
+    import threading
+
+    from eyecite import get_citations
+
+    barrier = threading.Barrier(n)
+    res = {}
+
+    def work(k):
+        barrier.wait()
+        out = []
+        for job in jobs:
+            try:
+                cs = get_citations(job["text"], remove_ambiguous=job.get("ra", False))
+                out.append(json.dumps(dict(ok=serialise(cs)), sort_keys=True, ensure_ascii=True))
+            except Exception as e:  # noqa
+                out.append(json.dumps(dict(err=type(e).__name__)))
+        res[k] = out
+
+    ths = [threading.Thread(target=work, args=(k,)) for k in range(n)]
+    for t in ths:
+        t.start()
+    for t in ths:
+        t.join()
+    for k in range(n):
+        for line in res.get(k, []):
+            print(f"{k}\t{line}")
+
+
 def main():
     from eyecite import get_citations
 
+    if len(sys.argv) > 2 and sys.argv[2].startswith("--threads="):
+        cold_threads(json.load(open(sys.argv[1])), int(sys.argv[2].split("=")[1]))
+        return
     jobs = json.load(open(sys.argv[1]))
     for job in jobs:
         try:
